@@ -13,10 +13,13 @@ CONSTANTS GenRules,     \* subset of IntervalRules emitted by this run (runs are
 Range(a, b) == [i \in 1..(b - a + 1) |-> a + i - 1]
 NonZero(s) == SelectSeq(s, LAMBDA x : x # 0)
 Vs(ns) == [i \in 1..Len(ns) |-> V(ns[i])]
-FarV(f) == [n |-> 0, far |-> f, cps |-> <<>>]
+FarV(f) == [n |-> 0, far |-> f, cps |-> <<>>, eps |-> 0]
+\* the representable neighbours just below / above the integers of the window (floats only; 0 included: the smallest denormals)
+Evens(a, b) == SelectSeq(Range(a, b), LAMBDA x : x % 2 = 0)
+VsE(ns, e) == [i \in 1..Len(ns) |-> [n |-> ns[i], far |-> 0, cps |-> <<>>, eps |-> e]]
 Cyc(c, n) == [i \in 1..n |-> c[((i - 1) % Len(c)) + 1]]
 Strs(cycles) == [j \in 1..(Len(cycles) * (W + 3)) |->
-                   [n |-> 0, far |-> 0, cps |-> Cyc(cycles[((j - 1) \div (W + 3)) + 1], ((j - 1) % (W + 3)) + 1)]]
+                   [n |-> 0, far |-> 0, cps |-> Cyc(cycles[((j - 1) \div (W + 3)) + 1], ((j - 1) % (W + 3)) + 1), eps |-> 0]]
 
 Kinds == <<"string", "string_delim",
            "int8", "int16", "int32", "int64", "int",
@@ -28,7 +31,8 @@ Values(kind) ==
     [] kind = "uint8" -> Vs(Range(1, 255))
     [] kind \in {"int16", "int32", "int64", "int"} -> <<FarV(-1)>> \o Vs(NonZero(Range(-W - 2, W + 2))) \o <<FarV(1)>>
     [] kind \in {"uint16", "uint32", "uint64", "uint"} -> Vs(Range(1, W + 2)) \o <<FarV(1)>>
-    [] kind \in {"float32", "float64"} -> <<FarV(-1)>> \o Vs(NonZero(Range(-2 * W - 3, 2 * W + 3))) \o <<FarV(1)>>   \* halves
+    [] kind \in {"float32", "float64"} -> <<FarV(-1)>> \o Vs(NonZero(Range(-2 * W - 3, 2 * W + 3)))            \* halves
+                                           \o VsE(Evens(-2 * W - 2, 2 * W + 2), -1) \o VsE(Evens(-2 * W - 2, 2 * W + 2), 1) \o <<FarV(1)>>
     [] kind = "string" -> Strs(<< <<97>>, <<233>>, <<20013>>, <<128512>>, <<97, 233, 20013, 128512>>, <<32, 97, 32>> >>)  \* 1-,2-,3-,4-byte runes, mixed, blanks at the ends
     [] kind = "string_delim" -> Strs(<< <<38, 97, 61, 98, 63, 99>>, <<97, 37, 43, 35, 98, 38>> >>)          \* & = ? % + # inside the value
     [] kind \in {"slice_int", "slice_string"} -> Vs(Range(1, W + 3))
@@ -48,7 +52,7 @@ Bits(grp) == LET vs == Values(grp.kind) IN
 Abs(x) == IF x < 0 THEN -x ELSE x
 NearBits(grp) == LET vs == Values(grp.kind) IN
                  [i \in 1..Len(vs) |-> LET m == Measure(grp.kind, vs[i]) IN
-                    IF Abs(m - 2 * grp.lo) <= 2 \/ Abs(m - 2 * grp.hi) <= 2 THEN 1 ELSE 0]
+                    IF Abs(m - 4 * grp.lo) <= 4 \/ Abs(m - 4 * grp.hi) <= 4 THEN 1 ELSE 0]
 Emit == PrintT("@@GRP " \o ToJson([rule |-> g.rule, lo |-> g.lo, hi |-> g.hi, kind |-> g.kind, viol |-> Bits(g), near |-> NearBits(g)]))
 
 ASSUME EmitVals => \A k \in DOMAIN Kinds : PrintT("@@VALS " \o ToJson([kind |-> Kinds[k], vals |-> Values(Kinds[k])]))
